@@ -66,6 +66,36 @@ theorem binary_file_roundtrip (cls : Cls) (tol : Rat) (nt : NumTables) (A : List
     loadContent tol nt (savedContent tol cls A false) false = .ok (cls, entryOp (keptEntries tol A)) := by
   simpa [savedContent] using loadContent_binary (nt := nt) hs hcanon hnodup
 
+/-- the plain-text and the binary format return the same dictionary (same terms, same coefficients) -/
+theorem formats_agree (cls : Cls) (tol : Rat) (A : List Entry) :
+    (normOp tol cls A true).Perm (normOp tol cls A false) := by
+  simpa [normOp] using printed_perm_kept cls tol A
+
+/-- `"name"` and `"name.data"` denote the same file -/
+theorem file_name_alias (n d : Str) (hn : n ≠ []) (h : n.drop (n.length - 5) ≠ ['.', 'd', 'a', 't', 'a']) :
+    getFilePath (n ++ ['.', 'd', 'a', 't', 'a']) d = getFilePath n d :=
+  getFilePath_alias n d hn h
+
+/-- **repeated cycles change nothing**: saving (in either format, with whatever texts Python prints
+for the coefficients now) what a load returned and loading it again gives the same dictionary -/
+theorem second_cycle (cls : Cls) (tol : Rat) (A A' : List Entry) (plain plain' : Bool)
+    (h : entryOp A' = normOp tol cls A plain) :
+    (normOp tol cls A' plain').Perm (normOp tol cls A plain) := by
+  have hB : ∃ B : List Entry, normOp tol cls A plain = entryOp B ∧ ∀ e ∈ B, GQ.isSmall tol e.2.1 = false := by
+    cases plain
+    · exact ⟨keptEntries tol A, by simp [normOp], fun e he => by
+        have := (List.mem_filter.1 he).2; simpa using this⟩
+    · exact ⟨printedEntries cls tol A, by simp [normOp], fun e he => (mem_printedEntries.1 he).2⟩
+  obtain ⟨B, hBeq, hBs⟩ := hB
+  have hk : keptEntries tol A' = A' := keptEntries_self_of_entryOp (h.trans hBeq) hBs
+  have h1 : (normOp tol cls A' plain').Perm (entryOp (keptEntries tol A')) := by
+    cases plain'
+    · simp [normOp]
+    · simpa [normOp] using printed_perm_kept cls tol A'
+  rw [hk, h] at h1
+  exact h1
+
+
 /-- **overwrite_guard.**  `save_operator` without `allow_overwrite` on an existing file raises and
 (returning an error) leaves the file system as it was. -/
 theorem overwrite_guard (tol : Rat) (fs : FS) (cls : Cls) (A : List Entry) (name dir path : Str) (plain : Bool)
